@@ -12,11 +12,17 @@
    [pclass]: the classifiers of Spec.v / BwSpec.v / DedupSpec.v on the observed history, Token.Hash = CRC-64/ISO. *)
 From Coq Require Import ZArith NArith List Bool Arith.
 From GoCoap Require Import Base.Cases Base.Interleave Observe.Model Token.Model Token.Spec Token.Run
-  Token.BwModel Token.BwSpec Token.BwRun Token.DedupModel Token.DedupSpec.
+  Token.BwModel Token.BwSpec Token.BwRun Token.DedupModel Token.DedupSpec Token.RecycleModel.
 Import ListNotations.
 Open Scope Z_scope.
 
-Inductive case := Case (evs : list oev) | BwCase (evs : list bev) | DdCase (evs : list dev).
+(* one operation on a pooled message; a decode comes with what the harness read afterwards (token, code, body) *)
+Inductive rcop :=
+| RcUnm (tcp : bool) (tok : list Z) (code : Z) (pl : list Z) (obs : list Z * Z * list Z)
+| RcReset
+| RcBody (b : list Z).
+
+Inductive case := Case (evs : list oev) | BwCase (evs : list bev) | DdCase (evs : list dev) | RcCase (ops : list rcop).
 
 Definition dcfg := DedupModel.dconfig.
 
@@ -148,8 +154,44 @@ Definition dd_agrees (evs : list dev) : bool :=
   dcids_ok 0 evs &&
   drun_evs (length cp) (mkDRS (dinit (cp ++ [drecv_prog [] evs])) [] [] []) evs.
 
+(* ---------- RcCase: one pooled message through several lives (Token/RecycleModel.v) ----------
+   The harness runs the real pool.Message: UnmarshalWithDecoder of a message the real tcp / udp coder encoded,
+   Reset (what Pool.ReleaseMessage does before the message goes back to the pool), SetBody; after every decode it
+   reads Token(), Code(), ReadBody(). *)
+Definition obs3_eqb (a b : list Z * Z * list Z) : bool :=
+  let '(t, c, p) := a in let '(t', c', p') := b in tok_eqb t t' && (c =? c') && tok_eqb p p'.
+
+Definition rc_pop (o : rcop) : pop :=
+  match o with
+  | RcUnm tcp tok code pl _ => PUnm tcp (mkW tok code pl)
+  | RcReset => PReset
+  | RcBody b => PBody b
+  end.
+
+Fixpoint rc_run (m : pmsg) (l : list rcop) : bool :=
+  match l with
+  | [] => true
+  | o :: q =>
+      let m' := papply reset m (rc_pop o) in
+      (match o with RcUnm _ _ _ _ obs => obs3_eqb (content m') obs | _ => true end) && rc_run m' q
+  end.
+
+(* from the property text: a response decoded into a message that is new or has been released since its last use
+   carries the token and the content the peer encoded. 1 = another token, 2 = other content *)
+Fixpoint rc_class (released : bool) (l : list rcop) : N :=
+  match l with
+  | [] => 0%N
+  | RcUnm _ tok code pl (t, c, b) :: q =>
+      if released && negb (tok_eqb t tok) then 1%N
+      else if released && negb ((c =? code) && tok_eqb b pl) then 2%N
+      else rc_class false q
+  | RcReset :: q => rc_class true q
+  | RcBody _ :: q => rc_class false q
+  end.
+
 Definition agrees (c : case) : bool :=
   match c with
+  | RcCase ops => rc_run fresh ops
   | Case evs => Token.BwRun.agrees (Token.BwRun.Case evs)
   | BwCase evs => Token.BwRun.agrees (Token.BwRun.BwCase evs)
   | DdCase evs => dd_agrees evs
@@ -157,6 +199,7 @@ Definition agrees (c : case) : bool :=
 
 Definition pclass (c : case) : N :=
   match c with
+  | RcCase ops => rc_class true ops
   | Case evs => c03_class hash evs
   | BwCase evs => c03bw_class hash evs
   | DdCase evs => c03dd_class hash evs
